@@ -49,6 +49,8 @@ struct Cg {
   int64_t pids_current = -1; // -1 derive
   std::vector<int> pids; // cgroup.procs
   bool frozen = false;
+  int lastPop = -1; // populated value last rendered into cgroup.events
+  uint64_t popSince = 0; // log length when it last changed
 
   std::set<std::string> absent; // files not present
   std::set<std::string> empty; // files rendered with zero bytes
